@@ -155,7 +155,19 @@ type vfC07Plan struct {
 	// without any sleep (see vfC07World.AwaitSweepThenOpen).
 	DialGate  map[uint32]map[int]bool `json:"dial_gate,omitempty"`
 	WriteGate map[uint32]map[int]bool `json:"write_gate,omitempty"` // n-th WriteTo of sid's sockets (if it succeeds)
-	HookGate  map[uint32]map[int]bool `json:"hook_gate,omitempty"`
+	// SendGate: the n-th SendMessage call stamped with session sid parks at ENTRY, before the fake
+	// looks at the message (a slow traffic logger / a descheduled goroutine): the reply loop then
+	// sits between a completed socket read and the hand-over to the client.
+	// ReadGate: the n-th successful read on sid's sockets has copied the packet into the caller's
+	// buffer and parks before returning (and before it is logged as activity).
+	SendGate map[uint32]map[int]bool `json:"send_gate,omitempty"`
+	ReadGate map[uint32]map[int]bool `json:"read_gate,omitempty"`
+	// DialSleep: the n-th UDP() dial for sid takes this long on the VIRTUAL clock. Only usable when
+	// nobody can want the session's connLock meanwhile (idle timeout longer than the dial).
+	DialSleep map[uint32]map[int]int64 `json:"dial_sleep_ns,omitempty"`
+	// WrapIO lets a part put real code of the package between the session manager and the fakes.
+	WrapIO   func(w *vfC07World) udpIO `json:"-"`
+	HookGate map[uint32]map[int]bool   `json:"hook_gate,omitempty"`
 	// EndCloseSleep: the first eventLogger.Close called after the IO ended (i.e. by Run's final
 	// cleanup) sleeps this long (virtual; no lock is held there), so that a sweep instant can fall
 	// into the middle of the final cleanup.
@@ -300,12 +312,14 @@ type vfC07World struct {
 	frozen bool
 	lastT  int64
 
-	ioEnded      bool // ReceiveMessage has returned the IO error
-	endSleepDone bool
-	origOf       map[string]string // rewritten destination -> destination the hook saw
-	gateOpen     map[uint32]bool
-	gateSeq      map[uint32]int // log position at which a gated call of sid started waiting
-	gateOutcome  map[string]int
+	ioEnded       bool // ReceiveMessage has returned the IO error
+	endSleepDone  bool
+	origOf        map[string]string // rewritten destination -> destination the hook saw
+	lastHookSid   uint32
+	lastHookValid bool
+	gateOpen      map[uint32]bool
+	gateSeq       map[uint32]int // log position at which a gated call of sid started waiting
+	gateOutcome   map[string]int
 
 	runStart    int64 // virtual time at which Run() was started
 	runRet      bool
@@ -412,6 +426,12 @@ func (w *vfC07World) ReceiveMessage() (*protocol.UDPMessage, error) {
 func (w *vfC07World) SendMessage(buf []byte, msg *protocol.UDPMessage) error {
 	w.mu.Lock()
 	defer w.mu.Unlock()
+	if gn := w.next("sendgate", msg.SessionID); w.plan.SendGate[msg.SessionID][gn] {
+		seq := w.add(vfC07Ev{Kind: "sgate", Ph: 1, Sid: msg.SessionID})
+		w.inflight++
+		w.waitGate(true, msg.SessionID, seq)
+		w.inflight--
+	}
 	if lim := w.plan.SendLimit; lim > 0 && msg.Size() > lim {
 		w.add(vfC07Ev{Kind: "send", Sid: msg.SessionID, No: -1, Addr: msg.Addr, Err: "too-large", Aux: int64(msg.Size())})
 		return &quic.DatagramTooLargeError{MaxDatagramPayloadSize: int64(lim)}
@@ -464,6 +484,7 @@ func (w *vfC07World) Hook(data []byte, reqAddr *string) error {
 	if m := w.msgs[no]; m != nil {
 		sid = m.Sid
 	}
+	w.lastHookSid, w.lastHookValid = sid, w.msgs[no] != nil
 	n := w.next("hook", sid)
 	mode := w.plan.HookMode[sid][n]
 	orig := *reqAddr
@@ -497,7 +518,12 @@ func (w *vfC07World) Hook(data []byte, reqAddr *string) error {
 
 func (w *vfC07World) UDP(reqAddr string) (UDPConn, error) {
 	w.mu.Lock()
-	sid, _ := vfC07SidOfAddr(reqAddr)
+	sid, labelled := vfC07SidOfAddr(reqAddr)
+	if !labelled && w.lastHookValid {
+		// destination without a session label (shared between sessions): the dial belongs to the
+		// session whose first datagram the receive loop has just shown to Hook
+		sid = w.lastHookSid
+	}
 	if w.frozen {
 		w.mu.Unlock()
 		return nil, &vfC07Err{Kind: "dial-fail", Sid: sid}
@@ -510,8 +536,10 @@ func (w *vfC07World) UDP(reqAddr string) (UDPConn, error) {
 	w.inflight++
 	seq := w.add(vfC07Ev{Kind: "dial", Ph: 1, Sid: sid, Addr: reqAddr, Aux: int64(n)})
 	w.waitGate(w.plan.DialGate[sid][n], sid, seq)
+	vs := time.Duration(w.plan.DialSleep[sid][n])
 	w.mu.Unlock()
 	vfC07Yield(d) // under connLock: yield, never sleep (see vfC07Yield)
+	w.sleep(vs)   // scripted long dial on the virtual clock (see vfC07Plan.DialSleep)
 	w.mu.Lock()
 	defer w.mu.Unlock()
 	w.inflight--
@@ -601,10 +629,7 @@ func (w *vfC07World) AwaitSweepThenOpen(sm *udpSessionManager, sid uint32, stack
 			}
 			w.mu.Unlock()
 			if outcome == "closed" {
-				sm.mutex.RLock()
-				_, still := sm.m[sid]
-				sm.mutex.RUnlock()
-				if still {
+				if vfC07TableHas(sm, sid) {
 					outcome = "none" // exit still in progress: look again
 				}
 				continue
@@ -749,6 +774,13 @@ func (s *vfC07Sock) ReadFrom(b []byte) (int, string, error) {
 				return 0, "", it.err
 			}
 			n := copy(b, it.data)
+			if gn := w.next("readgate", s.sid); w.plan.ReadGate[s.sid][gn] {
+				seq := w.add(vfC07Ev{Kind: "rgate", Ph: 1, Sid: s.sid, Sock: s.id, No: it.no})
+				w.inflight++
+				w.waitGate(true, s.sid, seq)
+				w.inflight--
+			}
+			// logged when it is handed to the code under test: that is when it counts as activity
 			w.add(vfC07Ev{Kind: "read", Sid: s.sid, Sock: s.id, No: it.no, Addr: it.from, Aux: int64(n)})
 			return n, it.from, nil
 		}
@@ -916,13 +948,7 @@ func (w *vfC07World) Snapshot(sm *udpSessionManager, final bool) bool {
 		return false
 	}
 	count := sm.Count()
-	sm.mutex.RLock()
-	keys := make([]uint32, 0, len(sm.m))
-	for id, e := range sm.m {
-		keys = append(keys, id)
-		_ = e
-	}
-	sm.mutex.RUnlock()
+	keys := vfC07TableKeys(sm) // nil when the job does not look inside the table
 	sort.Slice(keys, func(i, j int) bool { return keys[i] < keys[j] })
 	w.mu.Lock()
 	sn := vfC07Snap{Count: count, Keys: keys, Final: final}
@@ -999,7 +1025,11 @@ func vfC07RunBubbleIn(t *testing.T, plan *vfC07Plan, timeout time.Duration, stac
 	synctest.Test(t, func(t *testing.T) {
 		w = vfC07NewWorld(plan)
 		*out = w
-		sm := newUDPSessionManager(w, &vfC07ELog{w}, timeout)
+		var io udpIO = w
+		if plan.WrapIO != nil {
+			io = plan.WrapIO(w)
+		}
+		sm := newUDPSessionManager(io, &vfC07ELog{w}, timeout)
 		done := make(chan error, 1)
 		w.runStart = w.now()
 		go func() { done <- sm.Run() }()
@@ -1295,7 +1325,11 @@ func vfC07CheckCommon(k *vfKit, w *vfC07World, ix *vfC07Index, report vfC07Repor
 			p := strings.Split(x.Err, "/")
 			ok := len(p) == 3 && (p[0] == "dial-fail" || p[0] == "policy-deny" || p[0] == "hook-fail" || p[0] == "read-err" || p[0] == "send-fail" || p[0] == "write-fail") &&
 				p[1] == strconv.FormatUint(uint64(sid), 10)
-			if !ok {
+			if strings.HasPrefix(x.Err, "foreign:") {
+				// an error made by the implementation itself (e.g. a timeout of its own): nothing the
+				// property forbids, only counted
+				k.Count("closes_by_implementation_error", 1)
+			} else if !ok {
 				report("udp:foreign-close-error", x.StartSeq, "session %d was closed with error %q, which was not injected into that session", sid, x.Err)
 			} else {
 				k.Count("closes_by_"+p[0], 1)
@@ -1377,8 +1411,8 @@ func vfC07CheckSnapshots(k *vfKit, w *vfC07World, ix *vfC07Index, report vfC07Re
 			continue
 		}
 		k.Count("ev_snapshots", 1)
-		same := len(want) == len(sn.Keys) && sn.Count == len(want)
-		if same {
+		same := sn.Count == len(want) && (sn.Keys == nil || len(want) == len(sn.Keys))
+		if same && sn.Keys != nil {
 			for i := range want {
 				if want[i] != sn.Keys[i] {
 					same = false
